@@ -305,3 +305,96 @@ def c07_3(run):
     if not n:
         raise Inconclusive('vacuity')
     run.require_reached(*run.cur.reach)
+
+
+# ----------------------------------------------------------------------------------------------------------------- C07-4
+@obligation('C07', 'C07-4 SequencerBlockBuilder::try_build: a block is built only if both commitments equal the ones recomputed from its data; every rollup gets exactly its submissions then its deposits and the proof for its own leaf position')
+def c07_4(run):
+    cfg = {'txs': []}
+
+    def h_construct_proof(ctx):
+        t = ctx.ex.deref_val(ctx.st, ctx.args[0])
+        i = z3.simplify(ctx.ex.deref_val(ctx.st, ctx.args[1]))
+        if not z3.is_bv_value(i):
+            raise Inconclusive('symbolic proof index')
+        if t.attrs.get('open') is not None:
+            t.attrs['leaves'] = t.attrs['leaves'] + [leaf_of(t.attrs['open'])]; t.attrs['open'] = None
+        if i.as_long() >= len(t.attrs['leaves']):
+            return [(None, none())]
+        pr = Obj('merkle::audit::Proof', kind='opaque'); pr.attrs['index'] = i.as_long(); pr.attrs['leaves'] = tuple(t.attrs['leaves'])
+        return [(None, some(pr))]
+    hooks = [h for h in commitment_hooks(cfg) + tree_hooks() if h[1] is not None] + [(re.compile(r'(^|::)Tree::construct_proof$'), h_construct_proof)]
+    sc = {'astria_core::primitive::v1::RollupId': 256, 'primitive::v1::RollupId': 256, 'RollupId': 256, 'sequencerblock::v1::block::Hash': 256, 'block::Hash': 256, 'tendermint::block::Height': 64,
+          'tendermint::Time': 128, 'tendermint::account::Id': 160}
+    ex = loader.load(['astria-core'], scalar_types=sc, hooks=hooks, dep_adts=['tendermint'])
+    cands = [n for n in ex.fns if n.endswith('::try_build') and 'closure' not in n and (ex.impl_self(n) or (None, ''))[1] == 'SequencerBlockBuilder']
+    if len(cands) != 1:
+        raise Inconclusive(f'SequencerBlockBuilder::try_build not found: {cands}')
+    shapes = [([], {}), ([0], {}), ([0, 0], {}), ([0, 1], {}), ([1, 0], {}), ([0], {0: 1}), ([0], {1: 1}), ([], {0: 2}), ([0, 1], {1: 1})]
+    run.bound(blocks=f'{len(shapes)} block shapes: 0..2 rollup data submissions over <= 2 symbolic rollup ids, 0..2 deposits for <= 2 ids', merkle='astria-merkle Tree API through its C08-S contract; proofs are (leaf list, index) pairs',
+              commitments='the two roots carried in the block data are arbitrary hash values')
+    n_ok = 0
+    for si, (subs_shape, dep_shape) in enumerate(shapes):
+        nids = 1 + max(subs_shape + list(dep_shape.keys()) + [-1])
+        ids = [z3.BitVec(f'rollup_id{i}', 256) for i in range(max(nids, 1))]
+        subs = []; rdb = []
+        for ai, ridx in enumerate(subs_shape):
+            d = Obj('bytes::Bytes', kind='opaque'); d.attrs['ident'] = z3.BitVec(f'data{ai}', 256)
+            subs.append((ridx, d.attrs['ident'])); rdb.append((ids[ridx], d))
+        deps = []; dep_entries = []
+        for ridx, cnt in dep_shape.items():
+            ds = []
+            for j in range(cnt):
+                d = Obj('astria_core::sequencerblock::v1::block::Deposit', kind='opaque'); d.attrs['ident'] = z3.BitVec(f'deposit_r{ridx}_{j}', 256)
+                ds.append(d); deps.append((ridx, d.attrs['ident']))
+            dep_entries.append((ids[ridx], M.new_vec('Vec<Deposit>', ds)))
+        given_ids_root, given_data_root = z3.Const('given_ids_root', Hash), z3.Const('given_data_root', Hash)
+        ebd = B.struct(ex, 'ExpandedBlockData', rollup_transactions_root=given_data_root, rollup_ids_root=given_ids_root)
+        bld = B.struct(ex, 'SequencerBlockBuilder', block_hash=z3.BitVec('block_hash', 256), expanded_block_data=ebd, rollup_data_bytes=M.new_vec('Vec<(RollupId, Bytes)>', rdb),
+                       deposits=M.new_map('HashMap<RollupId, Vec<Deposit>>', dep_entries))
+        st = ex.start(cands[0], [bld])
+        if len(dep_entries) > 1:
+            st.pc.append(ids[0] != ids[1])
+        for pi, p in enumerate(run.explore(ex, st, allow_havoc=(r'^Arguments::|fmt::',))):
+            lab = f'[shape {si}: submissions {subs_shape} deposits {dep_shape}, path {pi}]'
+            if p.kind != 'return':
+                run.prove(f'no panic {lab}', p.pc, z3.BoolVal(False), detail=p.info); continue
+            run.sample({'shape': si, 'path': pi, 'result': p.result.discr})
+            if p.result.discr != 'Ok':
+                continue
+            n_ok += 1
+            blk = ex.deref_val(p, p.result.fields[('Ok', 0)])
+            rts = [(ex.deref_val(p, kk), ex.deref_val(p, v)) for kk, v in B.fld(ex, p, blk, 'rollup_transactions', 'IndexMap').attrs['items']]
+            used = sorted({i for i, _ in subs} | {i for i, _ in deps})
+            def spec(groups):
+                leaves = []; idl = []; datas = []
+                for g in groups:
+                    data = [ENC_SEQ(d) for i, d in subs if i in g] + [ENC_DEP(d) for i, d in deps if i in g]
+                    inner = mth(data) if data else Hash.atom(z3.IntVal(-1))
+                    leaves.append(CONCAT(ID_BYTES(ids[g[0]]), HASH_BYTES(inner))); idl.append(ID_BYTES(ids[g[0]])); datas.append((ids[g[0]], data))
+                e = Hash.atom(z3.IntVal(-1))
+                return (mth(leaves) if leaves else e), (mth(idl) if idl else e), datas, leaves
+            cases = []
+            if len(used) <= 1:
+                cases.append((z3.BoolVal(True), spec([used] if used else [])))
+            else:
+                a, b = used
+                cases += [(ids[a] == ids[b], spec([[a, b]])), (z3.ULT(ids[a], ids[b]), spec([[a], [b]])), (z3.ULT(ids[b], ids[a]), spec([[b], [a]]))]
+            parts = []
+            for c, (sd, sid, datas, leaves) in cases:
+                cl = [given_data_root == sd, given_ids_root == sid, z3.BoolVal(len(rts) == len(datas))]
+                if len(rts) == len(datas):
+                    for j, ((kk, rt), (wid, wdata)) in enumerate(zip(rts, datas)):
+                        txs = [as_bytes(ex.deref_val(p, x)) for x in ex.deref_val(p, B.fld(ex, p, rt, 'transactions', 'Vec<Bytes>')).attrs['items']]
+                        pr = ex.deref_val(p, B.fld(ex, p, rt, 'proof', 'Proof'))
+                        cl += [kk == wid, B.fld(ex, p, rt, 'rollup_id', 'RollupId') == wid, z3.BoolVal(len(txs) == len(wdata)), *[x == y for x, y in zip(txs, wdata)],
+                               z3.BoolVal(pr.attrs.get('index') == j and len(pr.attrs.get('leaves', ())) == len(leaves)), *[x == y for x, y in zip(pr.attrs.get('leaves', ()), leaves)]]
+                parts.append(z3.Implies(c, z3.And(*cl)))
+            hdr = ex.deref_val(p, B.fld(ex, p, blk, 'header', 'SequencerBlockHeader'))
+            parts.append(B.fld(ex, p, hdr, 'rollup_transactions_root', '[u8; 32]') == given_data_root)
+            parts.append(B.fld(ex, p, blk, 'block_hash', 'block::Hash') == z3.BitVec('block_hash', 256))
+            run.prove(f'built => both given commitments equal the recomputed ones; rollups in ascending id order, each with exactly its submissions (block order) then deposits and the proof for its own position in that tree; header carries the data root {lab}',
+                      p.pc, z3.And(*parts))
+    if not n_ok:
+        raise Inconclusive('vacuity: no block built')
+    run.require_reached(*run.cur.reach)
